@@ -437,22 +437,27 @@ _c("C10",
    "classifier and mapping (Ser/Trusted.v), of the fast serializer (Ser/Fast.v) and of the per-class serializer STATE "
    "(Ser/FastState.v: which function K.serialize is after any sequence of class definitions with inheritance, "
    "create_serializer calls with any flags, instantiations / from_trusted_data and serializations; late binding of class "
-   "references, the first-use caches of Array/Set.serialize, the compact wrapper). Trusted side: on the flat fragment "
+   "references by the class of the VALUE, the compact wrapper). Trusted side: on the flat fragment "
    "(primitive fields, document in vset normal form under the fields' own names) the trusted path returns exactly the regular "
-   "path's instance (C10_trusted_partial, induction over the field list); for an ineligible class the flag changes nothing "
+   "path's instance (C10_trusted_partial, induction over the field list), and so it does on the enum fragment (primitive "
+   "fields and Enum fields over an enum class, by name or by value, plain / AnyOf[T, None] / AnyOf[None, T]: "
+   "C10_trusted_enums, through the enum mapping and _remap_input); for an ineligible class the flag changes nothing "
    "(C10_ineligible); from_trusted_data equals construct when every value is a fixpoint of its vset chain (C10_from_trusted). "
    "Fast side: per field, fast = regular on every declaration built from leaves, Array and Set (C10_fast_value_partial); per "
    "class, for every safe class environment (nested classes, Array/Set/Optional of leaves and of classes, simple mappers, no "
    "TO_CAMELCASE on a class that nests others, no Decimal/NoneField leaves, no defaults) and every instance listed in "
-   "declaration order the order-free fast document is the regular document (C10_fast_class, induction on nesting depth, field "
-   "list and field type); over histories: a class whose constructor has returned keeps a serializer of its own through every "
-   "later operation (C10_fast_instantiated_keeps_serializer, invariant over op sequences), in every state where the reachable "
-   "classes have their own serializers and the Array/Set caches are current the installed closure returns the order-free "
-   "document (C10_fast_state_independent, simulation by induction on depth), hence for EVERY order of create_serializer calls "
-   "and instantiations followed by any serializations the documents depend only on the flags each class ended up with "
+   "declaration order - whose fields may hold instances of subclasses of the declared classes - the order-free fast document "
+   "is the regular document (C10_fast_class, induction on nesting depth, field list and field type); over histories: a class whose constructor has returned keeps a serializer of its own through every "
+   "later operation (C10_fast_instantiated_keeps_serializer, invariant over op sequences; trusted instantiation without "
+   "keywords included), in every state where the classes of the structures an instance holds have their own serializers the "
+   "installed closure returns the order-free document (C10_fast_state_independent, by induction on depth), hence for EVERY "
+   "order of create_serializer calls, instantiations AND serializations followed by any serializations the documents depend "
+   "only on the flags each class ended up with "
    "(C10_fast_settled_history) and, with default flags, equal the regular documents (C10_fast_history). The full statement is a "
-   "Definition with refutation witnesses (it is false of the pinned tree: F18, AnyOf[None,T], unsupported mappers, Boolean "
-   "strings, compact conditions, serializer frozen by an early Array.serialize, subclass instance in a base-class field). "
+   "Definition with refutation witnesses (it is false of today's tree: Boolean strings, unsupported mappers, compact "
+   "conditions; F18, AnyOf[None,T], AnyOf without None, Optional literal Enum, Set[Number], the serializer frozen by an early "
+   "Array.serialize, the subclass instance in a base-class field and the trusted instance without keywords are repaired in "
+   "typedpy and are positive Examples now). "
    "Everything else - Optional/Enum/SerializableField leaves and mappers on the trusted side, serialize_none/compact flags, "
    "unsafe declarations - is decided by the differential: the model's eligible / deser_regular / deser_trusted / construct / "
    "from_trusted / create_serializer / fast_ser / run_ops (state machine, op by op) / ser_regular are compared with typedpy inside "
